@@ -190,6 +190,11 @@ func AllocLimit(n int) {
 
 var allocLimit, allocBase uint64
 
+// WorkLimit(n): the code that follows may take at most n interpreted SSA instructions (engine
+// only: a budget proportional to the input size, set by the harness). A path that exceeds it is
+// reported and counts as a violation only if the native run does not finish within its time limit.
+func WorkLimit(n int) {}
+
 func MonitorShared(on bool) {}
 func Ownership(on bool)     {}
 func Symbolic() bool        { return false }
